@@ -3,6 +3,7 @@ CONSTANTS
   NP = 10
   MaxOps = 45
   Pace = TRUE
+  MaxLevel = 1000000
   NVoters = 3
   KF_OrphanFirstMatchOnly = FALSE
   KF_StaleMarkers = FALSE
